@@ -218,7 +218,7 @@ namespace Dune
     typedef uint32_t* const_iterator;
 
     Selection()
-      : selected_()
+      : selected_(), size_(0), built_(false)
     {}
 
     Selection(const ParallelIndexSet& indexset)
